@@ -592,6 +592,18 @@ pub fn request_variants(vs: &[RqSpec]) -> ResourceRequestVariants {
     )
 }
 
+pub fn hex(bytes: &[u8]) -> String {
+    let mut s = String::with_capacity(bytes.len() * 2);
+    for b in bytes {
+        s.push_str(&format!("{b:02x}"));
+    }
+    s
+}
+
+pub fn unhex(s: &str) -> Vec<u8> {
+    (0..s.len() / 2).map(|i| u8::from_str_radix(&s[2 * i..2 * i + 2], 16).unwrap_or(0)).collect()
+}
+
 fn crash_limit(s: &str) -> CrashLimit {
     match s {
         "default" => CrashLimit::default(),
@@ -899,6 +911,17 @@ pub struct RestoredInfo {
 
 impl System {
     pub fn new(sc: Rc<Scenario>) -> System {
+        if let Some(hex) = &sc.restore_journal_hex {
+            // start in the state the real restore sequence produces from this journal
+            let scratch = Scratch::new("rst");
+            let path = scratch.path.join("restore.journal");
+            std::fs::write(&path, unhex(hex)).expect("write journal");
+            let (mut sys, info) = Self::build(sc.clone(), Some(&path)).expect("restore");
+            let info = info.expect("restore info");
+            sys.feed_restored(info.submits).expect("feed restored tasks");
+            sys.take_obs();
+            return sys;
+        }
         Self::build(sc, None).expect("system build").0
     }
 
